@@ -125,6 +125,19 @@ def ragged(x):
     return False
 
 
+def creation_fused_ragged(x):
+    """is a creation op (an expression without inputs) fused into a FusedBlockwise node some axis of which has blocks of
+    different sizes?  (finding C21-A with a source present: the wrongly sized inner block meets the real source block)"""
+    try:
+        for e in x._lowered_expr.walk():
+            if type(e).__name__ == "FusedBlockwise" and any(not q.dependencies() for q in e.exprs) \
+                    and any(len(set(c)) > 1 for q in (e, *e.exprs) for c in q.chunks):
+                return True
+    except Exception:  # noqa: BLE001
+        pass
+    return False
+
+
 def check_collection(chk, x, desc, tag):
     """one collection alone"""
     try:
@@ -144,7 +157,8 @@ def check_collection(chk, x, desc, tag):
             cache, problems = execute_records(records)
         except Exception as e:  # noqa: BLE001
             chk.violation(f"executing the records raises {type(e).__name__}: {str(e)[:100]}", desc,
-                          signature={"class": "records-raise", "error": err_sig(e), "root_op": tag})
+                          signature={"class": "records-raise", "error": err_sig(e), "root_op": tag,
+                                     "creation_fused_ragged": creation_fused_ragged(x)})
             return records
     if out_keys != list(dict.fromkeys(str(k) for k in keys)):
         problems.append("__frisky_output_keys__ differs from the stringified dask keys")
@@ -677,7 +691,470 @@ def walk_case(chk, colls):
     return lit, {"roots": len(roots), "layers": len(dag), "emitted": [len(r[1]) for r in roots]}
 
 
-def directed_collections(chk, da):
+# =====================================================================================
+# Correspondence with the Coq model of the FAST PATHS (coq/theories/FusedFast.v)
+#
+#   probe_blocks            <->  FusedBlockwiseLayer._probe_blocks
+#   analytical / uniform / site_based / seed_spec  <->  the four derivations of _fast_spec (result compared exactly:
+#                                maximal block, inkey order, projections, seed templates and holes, materialized slots)
+#   bad_blocks              <->  the blocks whose real _fast_records() record differs from the real _slow_records() one
+#
+# A FusedBlockwise node is reified as the family  bid |-> e._task((name, *bid), bid)  for EVERY block of its grid: canonical
+# subgraph (`_canon_fingerprint`), inkeys, `_walk_sites`, dependencies.  Independently of Coq, the real fast record of every
+# block is compared with the real slow record (same dependency keys; same subgraph once the shared subgraph's inkeys are bound
+# to the record's refs / seeds): a difference is a property violation.
+FF_HEADER = ("From DA Require Import FusedFast.\n"
+             "From Coq Require Import ZArith List PArith Arith Bool.\nImport ListNotations.\n"
+             "Fixpoint mismatches_from {A} (i : nat) (chk : A -> bool) (l : list A) : list nat :=\n"
+             "  match l with [] => [] | x :: t => if chk x then mismatches_from (S i) chk t\n"
+             "                                    else i :: mismatches_from (S i) chk t end.\n"
+             "Definition mismatches {A} (chk : A -> bool) (l : list A) : list nat := mismatches_from 0%nat chk l.\n"
+             "Definition nokw := LSeq (KDict 1%positive) [].\n"
+             "Definition dflt := mktask false [] (BKey 1%positive) [] None [].\n"
+             "Definition mkL (c : list Z * list positive * list (list Z) * list (option (list Z)) * list (block * task)) : layer :=\n"
+             "  let '(nb, deps, dnb, chunks, tbl) := c in mklayer nb deps dnb chunks (table_task tbl dflt).\n"
+             "Open Scope Z_scope.\n")
+# (layer, real probe blocks, real results of the four derivations, blocks whose real fast record differs from the slow one)
+FF_TYPE = ("(list Z * list positive * list (list Z) * list (option (list Z)) * list (block * task)) * list block * "
+           "(option spec * option spec * option spec * option spec) * list block")
+FF_PARTS = {
+    "probe_blocks": "set_eqb (list_eqb Z.eqb) (probe_blocks (l_nb L)) probes",
+    "_analytical_site_spec": "ospec_eqb ma ea",
+    "_fast_spec_uniform": "ospec_eqb mu eu",
+    "_site_based_spec": "ospec_eqb ms es",
+    "_seed_spec": "ospec_eqb md ed",
+    "fast-vs-slow-records": "set_eqb (list_eqb Z.eqb) (match fs with Some s => bad_blocks L s | None => [] end) bad",
+    # the well-formedness hypotheses of the soundness theorems (fuse_wf, deps_are_sites, canon_keys_unique) hold of the real family
+    "family-wf(theorem hypotheses)": "match fs with Some _ => family_wf_b L | None => true end",
+}
+
+
+def ff_chk(parts):
+    # every derivation is evaluated once (vm_compute is call-by-value); fs = _fast_spec = the first one that accepts
+    return ("Definition chk (c : " + FF_TYPE + ") : bool :=\n"
+            "  let '(lc, probes, (ea, eu, es, ed), bad) := c in let L := mkL lc in\n"
+            "  let ma := analytical L in let mu := uniform L in let ms := site_based L in let md := seed_spec L in\n"
+            "  let fs := match ma with Some s => Some s | None => match mu with Some s => Some s | None =>\n"
+            "            match ms with Some s => Some s | None => md end end end in\n  "
+            + " &&\n  ".join(FF_PARTS[p] for p in parts) + ".")
+
+
+MAX_FF_BLOCKS = 48
+
+
+class FFSkip(Exception):
+    pass
+
+
+class FFReifier:
+    """one FusedBlockwise node -> Coq literals of coq/theories/FusedFast.v"""
+
+    def __init__(self, names):
+        self.name_tag = {s: i + 1 for i, s in enumerate(sorted(set(names)))}   # Pos order = string order
+        self.val_tag = {}
+        self.keep = []
+
+    def name(self, s):
+        if not isinstance(s, str) or s not in self.name_tag:
+            raise FFSkip(f"name {s!r}")
+        return self.name_tag[s]
+
+    def opaque(self, fpk, obj):
+        t = self.val_tag.get(fpk)
+        if t is None:
+            t = len(self.val_tag) + 2             # tag 1 is the hole of _hole_fingerprint
+            self.val_tag[fpk] = t
+            self.keep.append(obj)
+        return t
+
+    def site(self, k):
+        if not (isinstance(k, tuple) and k and isinstance(k[0], str) and all(isinstance(c, numbers.Integral) for c in k[1:])):
+            raise FFSkip(f"key {k!r}")
+        return ctuple(f"{self.name(k[0])}%positive", clist([int(c) for c in k[1:]], cz_))
+
+    def label(self, lb):
+        if isinstance(lb, tuple) and len(lb) == 2 and lb[0] == "__in__":
+            return f"(BIn {self.name(lb[1])})"
+        if isinstance(lb, tuple) and len(lb) == 1 and isinstance(lb[0], str):
+            return f"(BNode {self.name(lb[0])})"
+        return f"(BKey {self.opaque(('key', str(lb)), lb)})"
+
+    def lit(self, a, rename):
+        """`_canon_arg(a, rename)` as a `lit`"""
+        if isinstance(a, TaskRef):
+            return f"(LRef {self.label(rename.get(a.key, a.key))})"
+        if isinstance(a, tuple):
+            return "(LSeq KTuple " + clist(a, lambda x: self.lit(x, rename)) + ")"
+        if isinstance(a, list):
+            return "(LSeq KList " + clist(a, lambda x: self.lit(x, rename)) + ")"
+        if isinstance(a, dict):
+            if not a:
+                return "nokw"
+            kt = self.opaque(("dictkeys", tuple((type(k).__name__, repr(k)) for k in a)), None)
+            return f"(LSeq (KDict {kt}) " + clist(a.values(), lambda x: self.lit(x, rename)) + ")"
+        if type(a) is int:
+            return f"(LInt {cz_(a)})"
+        if isinstance(a, (bool, int, float, str, bytes)) or a is None:
+            if isinstance(a, float) and a != a:
+                return f"(LVal {self.opaque(('nan', id(a)), a)})"
+            return f"(LVal {self.opaque(('val', type(a).__module__, type(a).__qualname__, repr(a)), a)})"
+        return f"(LVal {self.opaque(('id', id(a)), a)})"
+
+    def task(self, layer, t):
+        from dask._task_spec import _execute_subgraph
+        ok = t.func is _execute_subgraph and len(t.args) >= 3
+        if not ok:
+            return "dflt"
+        subgraph, outkey, inkeys = t.args[0], t.args[1], tuple(t.args[2])
+        rename = {}
+        for k in subgraph:
+            rename[k] = (k[0],) if isinstance(k, tuple) else (k,)
+        for ik in inkeys:
+            rename[ik] = layer._input_label(ik)
+        nodes = []
+        for k, n in subgraph.items():
+            if not isinstance(n, Task):
+                raise FFSkip("a subgraph node that is not a Task")
+            ck = rename[k]
+            if not (isinstance(ck, tuple) and len(ck) == 1):
+                raise FFSkip(f"canonical key {ck!r}")
+            kw = self.lit(n.kwargs, rename) if n.kwargs else "nokw"
+            nodes.append((self.name(ck[0]), f"(mknode {self.name(ck[0])} {self.opaque(('id', id(n.func)), n.func)} "
+                          f"{clist(n.args, lambda x: self.lit(x, rename))} {kw})"))
+        if len({k for k, _ in nodes}) != len(nodes):
+            raise FFSkip("two subgraph keys with one canonical key")
+        nodes.sort(key=lambda p_: p_[0])
+        sites = layer._walk_sites(subgraph, outkey, set(inkeys))
+        return ("(mktask true " + clist([s for _, s in nodes], str) + " " + self.label(rename.get(outkey, outkey)) + " "
+                + clist(inkeys, self.site) + " " + ("None" if sites is None else "(Some " + clist(sites, self.site) + ")") + " "
+                + clist(sorted(t.dependencies, key=str), self.site) + ")")
+
+    # ---- the real specs
+    def tmpl(self, t):
+        kind = t[0]
+        if kind == "const":
+            return f"(TConst {cz_(t[1])})"
+        if kind == "bid":
+            return f"(TBid {int(t[1])}%nat)"
+        if kind == "chunk":
+            return f"(TChunk {int(t[1])}%nat)"
+        return f"(TSeq {'true' if kind == 'tuple' else 'false'} {clist(t[1], self.tmpl)})"
+
+    def shared(self, sh):
+        outkey = sh.outkey
+        mb = [int(c) for c in outkey[1:]]
+        src, holes = [], {}
+        for ik in sh.inkeys:
+            if isinstance(ik, tuple) and ik and ik[0] == "__seed__":
+                continue
+            src.append(ik)
+        for k, n in sh.subgraph.items():
+            for ai, a in enumerate(getattr(n, "args", ())):
+                if isinstance(a, TaskRef) and isinstance(a.key, tuple) and a.key and a.key[0] == "__seed__":
+                    holes[a.key[1]] = (self.name(k[0]), ai)
+        hl = [holes[i] for i in range(len(holes))]
+        return (f"(mkshared {clist(mb, cz_)} {clist(src, self.site)} "
+                + clist(hl, lambda h: ctuple(f"{h[0]}%positive", f"{h[1]}%nat")) + ")")
+
+    def slot(self, s):
+        return ctuple(f"{int(s[0])}%nat", clist([int(c) for c in s[1]], cz_))
+
+    def spec(self, sp):
+        from dask_array._frisky.fused_blockwise import _ProjSpec
+        if sp is None:
+            return "None"
+        if isinstance(sp, _ProjSpec):
+            return ("(Some (ProjSpec " + self.shared(sp.shared) + " "
+                    + clist(sp.projections, lambda pj: ctuple(f"{int(pj[0])}%nat", clist(pj[1], lambda c: f"(PBid {int(c[1])}%nat)" if c[0] == "bid" else f"(PConst {cz_(c[1])})")))
+                    + " " + clist(sp.seed_templates, self.tmpl) + "))")
+        if sp.seed_slots:
+            raise FFSkip("a _MatSpec with seed slots")
+        return "(Some (MatSpec " + self.shared(sp.shared) + " " + clist(sp.dep_slots, lambda sl: clist(sl, self.slot)) + "))"
+
+
+def cz_(x):
+    x = int(x)
+    return f"({x})" if x < 0 else str(x)
+
+
+def _resolved(subgraph, outkey, binding):
+    """the subgraph with internal keys renamed to their expression name and every reference to an inkey replaced by what
+    `_execute_subgraph` seeds it with: ("src", key string) for a ref, the canonical value for a plain (seed) argument"""
+    rename = {k: ((k[0],) if isinstance(k, tuple) else (k,)) for k in subgraph}
+
+    def carg(a):
+        if isinstance(a, TaskRef):
+            if a.key in binding:
+                return binding[a.key]
+            return "ref", rename.get(a.key, a.key)
+        if isinstance(a, tuple):
+            return "tuple", tuple(carg(x) for x in a)
+        if isinstance(a, list):
+            return "list", tuple(carg(x) for x in a)
+        if isinstance(a, dict):
+            return "dict", tuple((k, carg(v)) for k, v in a.items())
+        if isinstance(a, (bool, int, float, str, bytes)) or a is None:
+            return "val", type(a), a
+        return "id", id(a)
+    nodes = {rename[k]: ((id(n.func), carg(n.args), carg(n.kwargs)) if isinstance(n, Task) else carg(n)) for k, n in subgraph.items()}
+    return nodes, rename.get(outkey, outkey), carg
+
+
+def _fast_vs_slow(layer):
+    """blocks (as tuples) whose real fast record is not the slow record, with what differs; None when there is no fast path"""
+    fast = layer._fast_records()
+    if fast is None:
+        return None
+    slow = layer._slow_records()
+    bad = []
+    bids = list(__import__("itertools").product(*(range(n) for n in layer.expr.numblocks)))
+    if len(fast) != len(slow) or len(slow) != len(bids):
+        return [(b, "number of records") for b in bids]
+    for bid, f, s_ in zip(bids, fast, slow):
+        why = None
+        if f[0] != s_[0]:
+            why = "record key"
+        elif set(f[4]) != set(s_[4]):
+            why = "dependency keys"
+        else:
+            sh = f[1]
+            _, _, plain = _resolved(sh.subgraph, sh.outkey, {})
+            fb = {ik: (("src", str(a.key)) if isinstance(a, TaskRef) else plain(a)) for ik, a in zip(sh.inkeys, f[2])}
+            fn, fo, _ = _resolved(sh.subgraph, sh.outkey, fb)
+            sub, outkey, inkeys = s_[2][0], s_[2][1], s_[2][2]
+            sb = {ik: ("src", str(a.key)) for ik, a in zip(inkeys, s_[2][3:])}
+            sn, so, _ = _resolved(sub, outkey, sb)
+            if len(sh.inkeys) != len(f[2]) or set(fb) != set(sh.inkeys):
+                why = "inkeys / args"
+            elif fo != so:
+                why = "output key"
+            elif fn != sn:
+                diff = sorted(k[0] for k in set(fn) | set(sn) if fn.get(k) != sn.get(k))
+                why = "subgraph of " + ",".join(x.split("-")[0] for x in diff)
+        if why:
+            bad.append((bid, why))
+    return bad
+
+
+def fused_fast_case(chk, e, what):
+    """one FusedBlockwise node -> (coq literal, info) or None"""
+    nb = tuple(int(n) for n in e.numblocks)
+    nblocks = int(np.prod(nb)) if nb else 1
+    if nblocks > MAX_FF_BLOCKS or nblocks == 0:
+        chk.count("fast:skipped-large-grid" if nblocks else "fast:skipped-empty-grid")
+        return None
+    layer = e._frisky_layer()
+    bids = list(__import__("itertools").product(*(range(n) for n in nb)))
+    with warnings.catch_warnings():
+        warnings.simplefilter("ignore")
+        tasks = [e._task((e._name, *bid), bid) for bid in bids]
+        deps = e.dependencies()
+        names = [d._name for d in deps]
+        for t in tasks:
+            if len(t.args) >= 3 and isinstance(t.args[0], dict):
+                names += [k[0] if isinstance(k, tuple) else k for k in t.args[0]]
+                names += [k[0] for k in t.args[2] if isinstance(k, tuple) and k]
+                names += [k[0] for k in t.dependencies if isinstance(k, tuple) and k]
+        R = FFReifier([n for n in names if isinstance(n, str)])
+        try:
+            tbl = clist(list(zip(bids, tasks)), lambda bt: ctuple(clist(bt[0], cz_), R.task(layer, bt[1])))
+            real = [layer._analytical_site_spec(), layer._fast_spec_uniform(), layer._site_based_spec(), layer._seed_spec()]
+            first = next((i for i, r in enumerate(real) if r is not None), None)
+            taken = layer._fast_spec()
+            kind = None if first is None else ("analytical", "uniform", "site_based", "seed")[first]
+            if (taken is None) != (first is None) or (taken is not None and R.spec(taken) != R.spec(real[first])):
+                chk.tie_break("fast:_fast_spec-is-not-the-first-derivation-that-accepts", {"node": what, "kind": kind})
+            specs = ctuple(*[R.spec(r) for r in real])
+            probes = sorted(layer._probe_blocks(nb))
+            bad = _fast_vs_slow(layer)
+            lc = ctuple(clist(nb, cz_), clist(names[:len(deps)], lambda s: f"{R.name(s)}%positive"),
+                        clist([d.numblocks for d in deps], lambda q: clist(q, cz_)),
+                        clist(layer._axis_chunks(), lambda d: "None" if d is None else "(Some " + clist(d, cz_) + ")"), tbl)
+        except FFSkip as ex:
+            chk.tie_break("assumption:fused-task-outside-the-modelled-shape", {"node": what, "why": str(ex)[:200]})
+            return None
+    lit = ctuple(lc, clist(probes, lambda b: clist(b, cz_)), specs, clist([b for b, _ in (bad or [])], lambda b: clist(b, cz_)))
+    info = {"node": what, "numblocks": list(nb), "kind": kind, "bad": [(list(b), w) for b, w in (bad or [])][:4], "nbad": len(bad or []),
+            "chunks": [list(c) for c in e.chunks], "creation_fused": any(not q.dependencies() for q in e.exprs),
+            "ragged": any(len(set(c)) > 1 for q in (e, *e.exprs) for c in q.chunks), "exprs": [type(q).__name__ for q in e.exprs]}
+    return lit, info
+
+
+def collect_fused_fast(chk, x, seen_fused, fast_cases, tagname):
+    """the FusedBlockwise nodes of one collection: reified for the model, and fast records compared with slow ones"""
+    try:
+        nodes = [e for e in x._lowered_expr.walk() if type(e).__name__ == "FusedBlockwise" and e._name not in seen_fused]
+    except Exception:  # noqa: BLE001
+        return
+    for e in nodes:
+        seen_fused.add(e._name)
+        what = f"{e._name.rsplit('-', 1)[0]} in {tagname}"
+        try:
+            c = fused_fast_case(chk, e, what)
+        except Exception as ex:  # noqa: BLE001
+            chk.tie_break("fast:reification-raises", {"node": what, "error": f"{type(ex).__name__}: {str(ex)[:200]}"})
+            continue
+        if c is None:
+            continue
+        fast_cases.append(c)
+        info = c[1]
+        chk.count("fast:fused-node")
+        chk.count(f"fast:path:{info['kind']}")
+        chk.count(f"fast:grid-ndim:{len(info['numblocks'])}")
+        if info["ragged"]:
+            chk.count("fast:ragged-chunks")
+        if info["creation_fused"]:
+            chk.count("fast:creation-op-fused")
+        if info["nbad"]:
+            chk.count("fast:fast-record-differs-from-slow")
+            desc = {"node": what, "numblocks": info["numblocks"], "chunks": info["chunks"], "path": info["kind"], "blocks": info["bad"], "exprs": info["exprs"]}
+            if info["creation_fused"] and info["ragged"] and all(w.startswith("subgraph of") for _, w in info["bad"]):
+                # finding C21-A: the literal (block shape) of a fused creation op at a block no probe looks at
+                sig = {"class": "records", "kind": "block-shape", "fused_creation": True, "family": "fast-vs-slow", "path": info["kind"]}
+            else:
+                sig = {"class": "fast-records", "problem": info["bad"][0][1][:24], "path": info["kind"], "creation_fused": info["creation_fused"], "ragged": info["ragged"]}
+            chk.violation(f"fast-path record of block {info['bad'][0][0]} differs from the slow-path record ({info['bad'][0][1]}); "
+                          f"{info['nbad']} block(s), path {info['kind']}", desc, signature=sig)
+        else:
+            chk.traces_validated += int(np.prod(info["numblocks"])) if info["kind"] else 0
+
+
+class _SwappedStub:
+    """replay of the model-level witness `swapped_layer` (theorem C21_probe_validation_is_multiset_refuted) on the REAL
+    FusedBlockwiseLayer: an expression-like object whose fused task reads one source at two sites, x[i,j] and x[j,i]
+    (x - x.T), except that at the probed block (2,0) the two sites are swapped.  Not an input a user can build from
+    dask_array expressions (their block maps are per-site functions): it only replays the model's witness."""
+    _name = "sub-stubswapped"
+    numblocks = (3, 3)
+    chunks = ((2, 2, 2), (2, 2, 2))
+    exprs = ()
+
+    class _Src:
+        _name = "array-stubsource"
+        numblocks = (3, 3)
+
+    def dependencies(self):
+        return [self._Src()]
+
+    def _frisky_layer(self):
+        from dask_array._frisky.fused_blockwise import FusedBlockwiseLayer
+        return FusedBlockwiseLayer(self)
+
+    def _task(self, key, bid):
+        import operator
+        i, j = bid
+        a, b = ("array-stubsource", i, j), ("array-stubsource", j, i)
+        if bid == (2, 0):
+            a, b = b, a
+        inner = Task(("transpose-stub", i, j), np.transpose, TaskRef(b))
+        outer = Task(("sub-stubouter", i, j), operator.sub, TaskRef(a), TaskRef(inner.key))
+        return Task.fuse(inner, outer, key=key)
+
+
+def replay_swapped_stub(chk, fast_cases):
+    c = fused_fast_case(chk, _SwappedStub(), "stub: x - x.T with the sites swapped at the probed block (2,0)")
+    chk.case(("fast-replay", "swapped-sites"), nontrivial=True)
+    chk.count("fast:replay-of-model-witness")
+    if c is None or c[1]["kind"] != "analytical" or [b for b, _ in c[1]["bad"]] != [[2, 0]]:
+        chk.tie_break("fast:replay-of-swapped_layer-differs-from-the-theorem", None if c is None else c[1])
+    if c is not None:
+        fast_cases.append(c)
+
+
+def fast_correspondence(chk, fast_cases):
+    import time
+    t0 = time.time()
+    lits = [c[0] for c in fast_cases]
+    parts = list(FF_PARTS)
+    # structurally identical families reify to the very same literal (the numbering is canonical): evaluate each once
+    uniq = list(dict.fromkeys(lits))
+    bad = [uniq[i] for i in coq_eval_cases(FF_HEADER, FF_TYPE, ff_chk(parts), uniq, chunk=max(12, -(-len(uniq) // 12)))[0]]
+    mism = [i for i, l in enumerate(lits) if l in set(bad)]
+    chk.extra["fast_distinct_literals"] = len(uniq)
+    if bad:
+        # name the component(s) that differ
+        which = {l: [] for l in bad}
+        for p_ in parts:
+            for j in coq_eval_cases(FF_HEADER, FF_TYPE, ff_chk([p_]), bad, chunk=max(12, -(-len(bad) // 12)))[0]:
+                which[bad[j]].append(p_)
+        for i in mism:
+            chk.tie_break("model:fused-fast-path-differs-from-FusedFast.v", {**fast_cases[i][1], "components": which[lits[i]], "coq_case": lits[i][:3000]})
+    chk.traces_validated += len(lits) - len(mism)
+    chk.extra["fast_cases"] = len(lits)
+    chk.extra["fast_literal_bytes"] = sum(len(x) for x in lits)
+    chk.extra["fast_coq_s"] = round(time.time() - t0, 1)
+
+
+def directed_fast_collections(chk, da, seen_fused, fast_cases):
+    """grids and shapes that steer every derivation of _fast_spec: ragged creation ops (finding C21-A first), one source read at
+    several sites, reversed axes, block_id / overlap literals (seed lifting), broadcasting sources, contractions"""
+    from dask_array import _materialize
+    fams = [("neg(ones((6,), chunks=((1,3,1,1),)))", lambda: -da.ones((6,), chunks=((1, 3, 1, 1),)))]
+
+    def src1(ch):
+        n = sum(ch)
+        return da.from_array(np.arange(float(n)) + 1, chunks=(ch,))
+
+    def src2(ch0, ch1):
+        return da.from_array(np.arange(float(sum(ch0) * sum(ch1))).reshape(sum(ch0), sum(ch1)) + 1, chunks=(ch0, ch1))
+
+    def add_bid(u, block_id=None):
+        return u + sum(block_id)
+
+    def add_info(u, block_info=None):
+        return u + block_info[0]["chunk-location"][0]
+    one_d = [(1, 3, 1, 1), (1, 3), (3, 1), (2, 2, 2), (2, 2, 1), (3, 2, 2, 2), (2, 2, 3, 2, 2), (2, 3, 2, 2, 2), (1, 1, 1, 1, 1, 1), (2, 5, 5, 5, 3),
+            (4,), (1, 2, 1, 2, 1, 2, 1)]
+    for ch in one_d:
+        n = sum(ch)
+        fams += [
+            (f"-ones[{ch}]", lambda ch=ch, n=n: -da.ones((n,), chunks=(ch,))),
+            (f"x+ones[{ch}]", lambda ch=ch, n=n: src1(ch) + da.ones((n,), chunks=(ch,))),
+            (f"x*full-zeros[{ch}]", lambda ch=ch, n=n: src1(ch) * da.full((n,), 2.0, chunks=(ch,)) - da.zeros((n,), chunks=(ch,))),
+            (f"x+x[::-1][{ch}]", lambda ch=ch: (lambda x: (x + 1) + x[::-1])(src1(ch))),
+            (f"map_blocks(block_id)[{ch}]", lambda ch=ch: da.map_blocks(add_bid, src1(ch) + 0, dtype="f8")),
+            (f"map_blocks(block_info)[{ch}]", lambda ch=ch: da.map_blocks(add_info, src1(ch) + 0, dtype="f8")),
+            (f"arange*2[{ch}]", lambda ch=ch, n=n: da.arange(n, chunks=(ch,)) * 2),
+        ]
+    two_d = [((1, 3, 1, 1), (1, 3, 1, 1)), ((2, 2), (3, 3)), ((1, 3, 2), (6,)), ((2, 2, 2), (1, 2, 1, 2)), ((3,), (1, 2, 3)), ((2, 1, 2, 1), (2, 2)),
+            ((1, 1, 3, 1, 1), (1, 1, 1, 1, 3)), ((2, 2, 2), (2, 2, 2))]
+    for ch0, ch1 in two_d:
+        sh = (sum(ch0), sum(ch1))
+        fams += [
+            (f"x+ones[{ch0},{ch1}]", lambda a=ch0, b=ch1, sh=sh: src2(a, b) + da.ones(sh, chunks=(a, b))),
+            (f"-ones*2[{ch0},{ch1}]", lambda a=ch0, b=ch1, sh=sh: -da.ones(sh, chunks=(a, b)) * 2),
+            (f"x+row[{ch0},{ch1}]", lambda a=ch0, b=ch1: src2(a, b) + src1(b) * 2),
+            (f"x+col-ones[{ch0},{ch1}]", lambda a=ch0, b=ch1: src2(a, b) * 3 + da.ones((sum(a), 1), chunks=(a, (1,)))),
+            (f"map_blocks(block_id)[{ch0},{ch1}]", lambda a=ch0, b=ch1: da.map_blocks(add_bid, src2(a, b) + 0, dtype="f8")),
+            (f"map_overlap[{ch0},{ch1}]", lambda a=ch0, b=ch1: da.map_overlap(lambda u: u * 2, src2(a, b) + 0, depth=1, boundary="reflect", dtype="f8")),
+            (f"x.T+1-ones.T[{ch0},{ch1}]", lambda a=ch0, b=ch1, sh=sh: (src2(a, b).T + 1) - da.ones(sh, chunks=(a, b)).T),
+        ]
+        if ch0 == ch1:
+            fams += [
+                (f"x-x.T[{ch0}]", lambda a=ch0, b=ch1: (lambda x: (x + 1) - x.T)(src2(a, b))),
+                (f"x@x.T[{ch0}]", lambda a=ch0, b=ch1: (lambda x: x @ x.T)(src2(a, b))),
+                (f"x*x+ones[{ch0}]", lambda a=ch0, b=ch1, sh=sh: (lambda x: x * x + da.ones(sh, chunks=(a, b)))(src2(a, b))),
+            ]
+    fams += [(f"ones3d{c}", lambda c=c: -da.ones(tuple(sum(q) for q in c), chunks=c) + 1)
+             for c in (((1, 1), (2, 1, 2), (1, 3, 1, 1)), ((2, 2, 2, 1), (1, 2), (3,)), ((1, 2, 2, 1), (1, 2, 2, 1), (1, 2, 2, 1)))]
+    for name, mk in fams:
+        _materialize._LOWER_CACHE.clear()
+        try:
+            with warnings.catch_warnings():
+                warnings.simplefilter("ignore")
+                x = mk()
+                x._lowered_expr
+        except Exception:  # noqa: BLE001
+            chk.count("fast:directed-skipped-raises")
+            continue
+        chk.case(("fast-directed", name), nontrivial=True)
+        chk.count("fast:directed-collection")
+        check_collection(chk, x, {"program": name}, name.split("[")[0])
+        collect_fused_fast(chk, x, seen_fused, fast_cases, name.split("[")[0])
+    replay_swapped_stub(chk, fast_cases)
+
+
+def directed_collections(chk, da, seen_fused=None, fast_cases=None):
     """layers the random programs rarely reach: NumPy-integer block coordinates inside TaskRefs (diagonal / trace / vindex),
     fused groups that read ONE source at several sites with different block maps (x - x.T, y @ y.T), on several grids"""
     from dask_array import _materialize
@@ -731,6 +1208,8 @@ def directed_collections(chk, da):
         chk.case(("directed", name), nontrivial=True)
         chk.count("directed-collection")
         check_collection(chk, x, {"program": name}, name.split("[")[0])
+        if fast_cases is not None:
+            collect_fused_fast(chk, x, seen_fused, fast_cases, name.split("[")[0])
 
 
 def run(chk: Check):
@@ -746,7 +1225,16 @@ def run(chk: Check):
                 "GraphRecordsLayer.to_task_records() are reified into Coq and `flatten_opt input = output` is checked structurally inside Coq (same keys "
                 "incl. -subN keys in the same order, same funcs, same arg skeletons, same sorted deps; NotImplementedError <-> None), together with "
                 "`dangling` = the count _check_complete reports and `data_ok`; for every group the real _walk_records visiting order with a shared "
-                "`seen` is compared with the model's `walk`")
+                "`seen` is compared with the model's `walk`.  "
+                "FAST PATHS (coq/theories/FusedFast.v): every FusedBlockwise node of the corpus / directed / generated collections (grids up to "
+                f"{MAX_FF_BLOCKS} blocks) and of a directed stream (ragged creation ops, one source at several sites, reversed axes, block_id / "
+                "overlap literals, broadcasting sources, contractions) is reified as the family bid -> e._task(...) for EVERY block (canonical "
+                "subgraph of _canon_fingerprint, inkeys, _walk_sites, dependencies); inside Coq the real _probe_blocks(numblocks), the real result of "
+                "each of _analytical_site_spec / _fast_spec_uniform / _site_based_spec / _seed_spec (None or the spec: maximal block, inkey order, "
+                "projections, seed templates and holes, materialized slots) and the set of blocks whose real _fast_records() record differs from "
+                "the real _slow_records() one are compared with the model (probe_blocks, analytical, uniform, site_based, seed_spec, bad_blocks); "
+                "independently of Coq the fast record of every block must have the slow record's dependency keys and, once the shared subgraph's "
+                "inkeys are bound to the record's refs / seeds, the slow record's subgraph (else: violation)")
     chk.assumptions = ["native layers are absent in this sandbox: only the generic GraphRecordsLayer translation is exercised",
                        "frisky Futures cannot exist in the sandbox: the Future branches of _records are not modelled",
                        "a key is identified with str(_norm_key(key)); a '<parent>-subN' string is assumed never to be the string of a graph key "
@@ -754,10 +1242,17 @@ def run(chk: Check):
                        "functions, literal leaves, kwarg names are opaque tags; the string order used by sorted(deps) is passed to the model as an oracle",
                        "the correspondence applies GraphRecordsLayer to EVERY lowered node; in the real walk FusedBlockwise nodes use their native "
                        "pure-Python FusedBlockwiseLayer (the only _frisky_layer that works without the Rust extension); their generic translation "
-                       "violates raw_ok (Tasks inside the raw subgraph dict) and is only checked structurally"]
+                       "violates raw_ok (Tasks inside the raw subgraph dict) and is only checked structurally",
+                       "fast paths: a fused task is (func is _execute_subgraph, canonical nodes sorted by key, inkeys, _walk_sites, dependencies); "
+                       "functions / non-int leaves are opaque tags by identity or value as _canon_arg compares them; names are numbered in string order "
+                       "(the order sorted(inkeys, key=(str(k[0]), coords)) uses); subgraph nodes are Tasks, keys are (str, ints...) — otherwise the "
+                       "node is reported as outside the modelled shape; `_canonical` (used by _seed_spec) and `_canon_fingerprint` agree on "
+                       "int-structured literals; Python's 1 == True / 1 == 1.0 coincidences between a template value and a literal are not modelled"]
     chk.run_proofs()
     rng = chk.rng
     layer_cases, walk_cases, seen_names = [], [], set()
+    fast_cases, seen_fused = [], set()
+    directed_fast_collections(chk, da, seen_fused, fast_cases)
     ext = [KeysOnly([("a", 0), ("a", 1)])]
     for j, mk in enumerate(CORPUS_GRAPHS):
         c = layer_case(chk, mk(), ext, f"corpus graph {j}")
@@ -789,7 +1284,8 @@ def run(chk: Check):
         chk.case(("corpus", name), nontrivial=True)
         chk.count("corpus-collection")
         check_collection(chk, x, {"program": name}, "neg")
-    directed_collections(chk, da)
+        collect_fused_fast(chk, x, seen_fused, fast_cases, "neg")
+    directed_collections(chk, da, seen_fused, fast_cases)
     n = 4000 if chk.tier == "thorough" else 250
     for it in range(n):
         _materialize._LOWER_CACHE.clear()
@@ -821,6 +1317,7 @@ def run(chk: Check):
             desc = progs.describe(p, g.sources)
             check_collection(chk, x, desc, p[0])
             collect_layer_cases(chk, x, seen_names, layer_cases, p[0])
+            collect_fused_fast(chk, x, seen_fused, fast_cases, p[0])
             # records + chunks protocol
             try:
                 with warnings.catch_warnings():
@@ -864,7 +1361,21 @@ def run(chk: Check):
                 chk.violation("; ".join(problems[:3]), {"members": [progs.show(p) for _, p in colls]},
                               signature={"class": "shared-seen", "problem": problems[0][:24] if not any(fused_creation(x) for x, _ in colls) else "block differs",
                                          "fused_creation": any(fused_creation(x) for x, _ in colls)})
+    # the two Coq evaluations are independent: run them side by side
+    import threading
+    err = []
+
+    def _fast():
+        try:
+            fast_correspondence(chk, fast_cases)
+        except Exception as e:  # noqa: BLE001
+            err.append(e)
+    th = threading.Thread(target=_fast)
+    th.start()
     model_correspondence(chk, layer_cases, walk_cases)
+    th.join()
+    if err:
+        raise err[0]
 
 
 def replay(path):
